@@ -10,6 +10,7 @@ import warnings
 
 sys.path.insert(0, os.path.dirname(os.path.abspath(__file__)))
 import boot  # noqa: E402
+import c15_fam  # noqa: E402
 
 _installed = False
 _events = []
@@ -89,7 +90,9 @@ def site_of(exc_text):
 
 
 def run_one(item):
-  """item = dict(label, src, mode).  Returns the record TraceC15 judges (+ bookkeeping)."""
+  """item = dict(label, src, mode[, opts]).  Returns the record TraceC15 judges (+ bookkeeping).
+  opts = extra pytype options of a planned text (option flags of Outcome!ProvokeTable, the
+  pythonpath of its stub files)."""
   install()
   import pyt
   label, src, mode = item["label"], item["src"], item.get("mode", "infer")
@@ -98,7 +101,7 @@ def run_one(item):
   del _events[:]
   _depth[0] = 0
   try:
-    r = pyt.analyze_file(src, check=(mode == "check"))
+    r = pyt.analyze_file(src, check=(mode == "check"), **(item.get("opts") or {}))
   except BaseException as e:  # pylint: disable=broad-except
     # analyze_file catches Exception; anything else (SystemExit, KeyboardInterrupt, RecursionError
     # is an Exception) also counts as escaped
@@ -110,7 +113,9 @@ def run_one(item):
   rec = {"label": label, "mode": mode, "nlines": len(src.split("\n")), "compiles": compiles,
          "cline": cline, "skip": bool(_SKIP_RE.search(src)), "events": events,
          "crashed": r["outcome"] == "crash", "errs": errs,
-         "oracle_exc": oexc, "pyi_len": len(r.get("pyi") or "")}
+         "oracle_exc": oexc, "pyi_len": len(r.get("pyi") or ""),
+         # oracle-side fact for the attribution of a known defect (Outcome!Attribution)
+         "anntrail": c15_fam.anntrail(src) if compiles else []}
   if rec["crashed"]:
     exc = r["exc"]
     rec["exc_type"] = exc.split(":", 1)[0]
